@@ -73,7 +73,8 @@ pub enum OpKind {
     Insert { slot: u8, h: H, payload: i64, generic: bool },
     Get { slot: u8, h: H, read: bool },
     GetMut { slot: u8, h: H, touch: bool, write: Option<i64> },
-    Remove { slot: u8, h: H },
+    /// `lend`: through `storage.drain().lend_join().get(e, &entities)` instead of `remove(e)`
+    Remove { slot: u8, h: H, #[serde(default)] lend: bool },
     Contains { slot: u8, h: H },
     Entry { slot: u8, h: H, op: EntryOp, payload: i64, write: Option<i64> },
     GetMutOrDefault { slot: u8, h: H, touch: bool, write: Option<i64> },
